@@ -194,4 +194,26 @@ def singleOf (view : α → View α) (s : Step α) (n : MNode α) : Option (MNod
   | .parent => n.remParent.map (fun t => MNode.par t n)
   | _ => none
 
+/-- `container[name]`, as Python reads it -/
+def childAt (v : View α) : Name → Option α
+  | .key k => match v with | .dict es => es.lookup k | _ => none
+  | .idx i => match v with | .list xs => getPy? xs i | _ => none
+
+/-- follow a list of names from a value -/
+def walk (view : α → View α) : α → List Name → Option α
+  | a, [] => some a
+  | a, nm :: l => match childAt (view a) nm with
+    | some c => walk view c l
+    | none => none
+
+theorem walk_append (view : α → View α) (a : α) (l1 l2 : List Name) :
+    walk view a (l1 ++ l2) = (walk view a l1).bind (fun b => walk view b l2) := by
+  induction l1 generalizing a with
+  | nil => simp [walk]
+  | cons nm l ih =>
+    simp only [List.cons_append, walk]
+    cases childAt (view a) nm with
+    | none => simp
+    | some c => exact ih c
+
 end Treepath
